@@ -267,10 +267,14 @@ CLAIMED = {
              "order from the translator) tied to HTMLSerializer.render by exact agreement incl. the error list. "
              "Theorems against S_tok (the WHATWG tokenizer transcription): for EVERY text and continuation the "
              "escaped text is read back as exactly that text and the tokenizer is back in the data state (text can "
-             "never become markup); for EVERY value, the double-/single-quoted form Ser writes is read back as "
-             "exactly that value and ends at the closing quote. PARTIAL: unquoted values, names, comments, doctypes, "
-             "raw-text elements and the lift to whole streams are decided by re-tokenizing the real output with "
-             "S_tok (extracted) for trees parsed from generated markup x options; seven listed findings.",
+             "never become markup); for EVERY value, the quoted AND the unquoted form Ser writes is read back as "
+             "exactly that value; a START TAG written under ANY option set (quoting mode, best-quote choice, minimised "
+             "booleans, trailing solidus) is read back as exactly that start tag (names ASCII-lower-cased, the first "
+             "of coinciding attribute names wins, self-closing iff the solidus was written), end tags likewise; and "
+             "the lift to WHOLE STREAMS of text, whitespace, start/empty and end tags without raw-text elements: if "
+             "Ser accepts the stream, S_tok reads its output back token by token. PARTIAL: comments, doctypes, "
+             "raw-text elements and entity tokens are decided by re-tokenizing the real output with S_tok "
+             "(extracted) for trees parsed from generated markup x options; seven listed findings.",
         design_ref="DESIGN.md 3 C08",
         note="four serializer/parser defects repaired in /repo.",
         technique="Coq proof (induction over text/value against the per-character specification machine) + "
@@ -295,11 +299,15 @@ CLAIMED = {
              "HTMLSerializer(sanitize=True).render by exact agreement. Theorems: no allowed element is a raw-text "
              "element, hence for EVERY stream and option set the loop never enters raw-text mode after the "
              "sanitizer: every Characters token, including the text disallowed tags are turned into, is escaped; "
-             "escaped text is read back as text by the WHATWG tokenizer whatever follows (C08), so a removed tag "
-             "cannot reappear lexically; comments never reach the serializer; the sanitizer sits between sorting "
-             "and omission. PARTIAL: structural re-interpretation on re-parse (namespace change of ALLOWED tags) "
-             "needs tree construction; decided by re-parsing as document and in 11 fragment contexts, scripting "
-             "on/off, with allow-list and provenance predicates; one listed finding.",
+             "for EVERY walker stream (any names, attributes, text, comments) and every option set the sanitized "
+             "output is re-tokenized by the WHATWG tokenizer S_tok into exactly the sanitized stream, and every token "
+             "read back is a character or a tag whose name and attribute names are on the allow-lists (the lexical "
+             "half of the property as one theorem, on top of C08's stream theorem); comments never reach the "
+             "serializer; the sanitizer sits between sorting and omission. PARTIAL: structural re-interpretation on "
+             "re-parse (tree level: namespace change of ALLOWED tags, trees no serialization reproduces) needs tree "
+             "construction; decided by re-parsing as document and in 11 fragment contexts, scripting on/off, with "
+             "allow-list and provenance predicates over generated markup and a corpus of non-serializable shapes; "
+             "one listed finding, one genuine mutation-XSS defect found and repaired in /repo.",
         design_ref="DESIGN.md 3 C10",
         note="sanitize_css is not modelled (streams with a style attribute are outside the model's domain).",
         technique="Coq proof (finite table fact lifted to all streams by induction, composition with C08/C09) + "
